@@ -328,6 +328,7 @@ var rules = []rule{
 	}},
 	{"secret-no-source", scSecret, []variant{
 		{"labels-only", M{"labels": M{"a": "b"}}, M{"file": "./s.txt"}, M{"labels": M{"c": "d"}}},
+		{"external-false", M{"labels": M{"a": "b"}}, M{"file": "./s.txt"}, M{"external": false}},
 		{"external-or-nothing", M{"labels": M{"a": "b"}}, M{"external": true}, M{"labels": M{"c": "d"}}},
 	}},
 	{"config-several-sources", scConfig, []variant{
@@ -341,6 +342,8 @@ var rules = []rule{
 	}},
 	{"config-no-source", scConfig, []variant{
 		{"labels-only", M{"labels": M{"a": "b"}}, M{"content": "hello"}, M{"labels": M{"c": "d"}}},
+		{"external-false", M{"labels": M{"a": "b"}}, M{"content": "hello"}, M{"external": false}},
+		{"external-false-quoted", M{"labels": M{"a": "b"}}, M{"file": "./c.txt"}, M{"external": "false"}},
 		{"external-or-nothing", M{"labels": M{"a": "b"}}, M{"external": true}, M{"labels": M{"c": "d"}}},
 	}},
 }
